@@ -75,7 +75,7 @@ fn run_case(dir: &Path, c: &Case) -> Result<Vec<&'static str>, (String, String)>
     }
     let logdir = dir.join("c03logs");
     std::fs::create_dir_all(&logdir).unwrap();
-    let mut srv = match Server::start_on("127.0.0.1", &args, &logdir, Some(&root.join(if c.relative_dirs { "." } else { "cwd" }))) {
+    let mut srv = match Server::start_on(&wire::local_ip(), &args, &logdir, Some(&root.join(if c.relative_dirs { "." } else { "cwd" }))) {
         Ok(s) => s,
         Err(StartError::Exited(code, e)) => return Err(("harness".into(), format!("tftpd exited at start-up with {}: {}", code, e))),
         Err(StartError::Harness(e)) => return Err(("harness".into(), e)),
@@ -86,6 +86,9 @@ fn run_case(dir: &Path, c: &Case) -> Result<Vec<&'static str>, (String, String)>
     let mut served = 0;
     let mut stored = 0;
     let mut accepted_any = false;
+    let mut stray = 0;
+    // the sockets of a batch stay open until its end, so that no later request inherits the port (and the late datagrams) of an earlier one
+    let mut keep_alive: Vec<Client> = vec![];
     let check_fs = |now: &BTreeMap<String, Entry>, accepted_any: bool, what: &str| -> Result<(), (String, String)> {
         for (rel, before, after) in wire::diff(&initial, now) {
             if rel.starts_with("c03logs") {
@@ -144,12 +147,16 @@ fn run_case(dir: &Path, c: &Case) -> Result<Vec<&'static str>, (String, String)>
                     stored += 1;
                 }
             }
-            Some((other, _)) => return Err(("bad-reply".into(), format!("request #{} {:?} (write={}) answered with {:?}", i, name, rq.write, other))),
+            Some((_other, _)) => {
+                // a datagram that answers neither kind of request (a late retransmission of an earlier transfer): not a confinement matter
+                stray += 1;
+            }
         }
         // filesystem effects so far
         let now = wire::snapshot(root);
         check_fs(&now, accepted_any, &format!("after request #{} ({} {:?})", i, if rq.write { "WRQ" } else { "RRQ" }, name))?;
         snap = now;
+        keep_alive.push(cl);
         if let Some(st) = srv.exit_status() {
             return Err(("server-terminated".into(), format!("tftpd exited ({}) after request #{} {:?}; stderr: {}", st, i, name, srv.stderr_tail())));
         }
@@ -157,6 +164,10 @@ fn run_case(dir: &Path, c: &Case) -> Result<Vec<&'static str>, (String, String)>
     if served > 0 {
         classes.push("served-a-file");
     }
+    if stray > 0 {
+        classes.push("stray-reply-ignored");
+    }
+    drop(keep_alive);
     if stored > 0 {
         classes.push("stored-a-file");
     }
